@@ -437,6 +437,72 @@ def _inf_semantic(project: Project, rep, init) -> bool:
     return decided
 
 
+def _dv_semantic(project: Project, rep, fi) -> bool:
+    """GL-DV decided on the evaluated function: with hom_deg = 0 the value returned is the whole death column of dgms[0] in
+    non-increasing order; with hom_deg = 1 every path raises.  False when the evaluation is not exact (the caller falls back
+    on the syntactic forms)."""
+    from ..core.absint import Config, Interp
+    from ..core import sym
+    from ..core.values import Bag, Sc, Seq
+    from .distances import dgm_input, Dd
+    if len(fi.params) < 2:
+        return False
+    P_DGMS, P_DEG = fi.params[:2]
+
+    def go(deg, n_dgms):
+        I = Interp(project, Config(nonempty={("rows", "X")}, finite_inputs={"X", "Y"}))
+        v = I.run(fi.qualname, {P_DGMS: Seq([dgm_input(nm) for nm in ("X", "Y")[:n_dgms]], "list"), P_DEG: Sc(sym.Num(deg))})
+        return I, v
+    try:
+        I, v = go(0, 2)
+        others = [(d, go(d, 2)[0]) for d in (1, 2)]
+    except AnalysisError:
+        return False
+    if I.unmodelled or I.lossy or any(J.unmodelled or J.lossy for _, J in others):
+        return False
+    for d, J in others:
+        top1 = [ev for ev in J.log if ev["kind"] == "return" and ev["fi"] is fi]
+        raised1 = [ev for ev in J.log if ev["kind"] == "raise"]
+        if raised1 and not top1:
+            rep.discharged("GL-DV", fi, raised1[0]["node"], f"evaluated with hom_deg = {d}: every path raises", nontrivial=False)
+        else:
+            rep.refuted("GL-DV", fi, (top1[0]["node"] if top1 else fi.node), f"evaluated with hom_deg = {d}: a value is returned "
+                        "instead of the documented rejection", construct=f"{fi.qualname}: guard")
+    rets = [ev for ev in I.log if ev["kind"] == "return" and ev["fi"] is fi]
+    if [ev for ev in I.log if ev["kind"] == "raise"] or len(rets) != 1:
+        return False
+    node = rets[0]["node"]
+    if not isinstance(v, Bag) or not v.is_sorted:
+        if isinstance(v, Bag) or hasattr(v, "axes"):
+            rep.refuted("GL-DV", fi, node, "evaluated with hom_deg = 0: the value returned is not sorted",
+                        construct=f"{fi.qualname}: death vector")
+            return True
+        return False
+    from .distances import unmodelled_in
+    if unmodelled_in(v.elem):
+        return False
+    ivs = sorted(sym.free_ivars(v.elem))
+    got = sym.subst_ivar(v.elem, ivs[0], ("$X", 0)) if len(ivs) == 1 else v.elem
+    if got != Dd("X"):
+        rep.refuted("GL-DV", fi, node, f"evaluated with hom_deg = 0: the sorted entries are {sym.show(v.elem)[:60]}, not the deaths of "
+                                       "dgms[0]", construct=f"{fi.qualname}: death vector")
+        return True
+    if v.size is None:
+        return False
+    if v.size != sym.Size(("rows", "X")):
+        rep.refuted("GL-DV", fi, node, f"evaluated with hom_deg = 0: {sym.show(v.size)[:50]} deaths are returned, not one per bar of "
+                                       "dgms[0]", construct=f"{fi.qualname}: death vector")
+        return True
+    if v.direction == "desc":
+        rep.discharged("GL-DV", fi, node, "evaluated with hom_deg = 0: all deaths of dgms[0], sorted in non-increasing order")
+    elif v.direction == "asc":
+        rep.refuted("GL-DV", fi, node, "evaluated with hom_deg = 0: the deaths are sorted in increasing order",
+                    construct=f"{fi.qualname}: death vector")
+    else:
+        return False
+    return True
+
+
 def check_dv_inf(project: Project, rep):
     fi = project.function("persim.landscapes.tools.death_vector")
     rep.analysed(fi)
@@ -444,14 +510,17 @@ def check_dv_inf(project: Project, rep):
     P_DGMS, P_DEG = (fi.params + ["dgms", "hom_deg"])[:2]
     guard = [n for n in ast.walk(f) if isinstance(n, ast.If) and P_DEG in ast.unparse(n.test) and _always_raises(n.body)]
     ok_guard = {f"{P_DEG}!=0", f"{P_DEG}>0", f"not{P_DEG}==0", f"0!={P_DEG}", f"0<{P_DEG}", f"{P_DEG}>=1"}
-    if guard and ast.unparse(guard[0].test).replace(" ", "") in ok_guard:
+    sem = _dv_semantic(project, rep, fi)
+    if sem:
+        pass
+    elif guard and ast.unparse(guard[0].test).replace(" ", "") in ok_guard:
         rep.discharged("GL-DV", fi, guard[0], "hom_deg ≠ 0 is rejected", nontrivial=False)
     elif guard:
         rep.unmodelled("GL-DV", fi, guard[0], f"degree guard `{ast.unparse(guard[0].test)}` not recognised")
     else:
         rep.refuted("GL-DV", fi, f, "death_vector no longer rejects homological degrees other than 0", construct=f"{fi.qualname}: guard")
     rets = [n for n in ast.walk(f) if isinstance(n, ast.Return) and n.value is not None]
-    for r in rets:
+    for r in ([] if sem else rets):
         v = expand_locals(f, r.value)
         txt = ast.unparse(v).replace(" ", "")
         desc = ("sorted(" in txt and "reverse=True" in txt) or ("np.sort(" in txt and txt.endswith("[::-1]")) or \
